@@ -118,50 +118,59 @@ def fmtFifo (buf : List Byte) : String :=
   let (os, _) := T.callN buf ⟨0⟩ (buf.length + 2)
   " ".intercalate (os.map (fun o => match o with | none => "N" | some f => fmtFrame buf f))
 
-/-- the value an operation returns, from the shadow at return time and the bytes read;
-    `none` = the Rust would index out of range (cannot happen: see Thm) -/
-def Op.finish (sh : Regs) (op : Op) (reads : List (List Byte)) : Option (Except Err String) :=
-  let one (f : Byte → List Int) : Option (Except Err String) := do
+/-- the numbers a getter returns, from the shadow at return time and the bytes read;
+    `none` = the Rust would index out of range (cannot happen: see Thm), or not a getter -/
+def Op.ints (sh : Regs) (op : Op) (reads : List (List Byte)) : Option (List Int) :=
+  let one (f : Byte → List Int) : Option (List Int) := do
     let b ← (← reads[0]?)[0]?
-    pure (.ok (fmtInts (f b)))
+    pure (f b)
   match op with
   | .getId => one (fun b => [b.toNat])
   | .getCmdError => one (fun b => [T.b2i ((b &&& 0x02#8) != 0#8)])
   | .getStatus => one T.decodeStatus
   | .getUnscaled => do
       let (x, y, z) ← T.fromBytesUnscaled (← reads[0]?)
-      pure (.ok (fmtInts [x, y, z]))
+      pure [x, y, z]
   | .getData => do
       let (x, y, z) ← T.fromBytesScaled (acc1_scale (sh 0x1A)) (← reads[0]?)
-      pure (.ok (fmtInts [x, y, z]))
+      pure [x, y, z]
   | .getSensorClock => do
       let r ← reads[0]?
-      pure (.ok (fmtInts [T.u24le (← r[0]?) (← r[1]?) (← r[2]?)]))
+      pure [T.u24le (← r[0]?) (← r[1]?) (← r[2]?)]
   | .getResetStatus => one (fun b => [T.b2i ((b &&& 0x01#8) != 0#8)])
   | .getIntStatus0 => one T.decodeIntStatus0
   | .getIntStatus1 => one T.decodeIntStatus1
   | .getIntStatus2 => one T.decodeIntStatus2
   | .getFifoLen => do
       let r ← reads[0]?
-      pure (.ok (fmtInts [T.fifoLen (← r[0]?) (← r[1]?)]))
+      pure [T.fifoLen (← r[0]?) (← r[1]?)]
+  | .getStepCount => do
+      let r ← reads[0]?
+      pure [T.u24le (← r[0]?) (← r[1]?) (← r[2]?)]
+  | .getStepActivity => one (fun b => [T.decodeActivity b])
+  | .getRawTemp => one (fun b => [T.i8of b])
+  | .getTempCelsius => one (fun b => [T.i8of b + 46])      -- reported as 2·t (exact)
+  | _ => none
+
+/-- the self-test verdict from the two data reads -/
+def selfTestVerdict (reads : List (List Byte)) : Option (Except Err String) := do
+  let (px, py, pz) ← T.fromBytesUnscaled (← reads[0]?)
+  let (nx, ny, nz) ← T.fromBytesUnscaled (← reads[1]?)
+  if px - nx > 1500 ∧ py - ny > 1200 ∧ pz - nz > 250 then pure (.ok "")
+  else pure (.error .selfTest)
+
+/-- the value an operation returns; `none` = the Rust would index out of range -/
+def Op.finish (sh : Regs) (op : Op) (reads : List (List Byte)) : Option (Except Err String) :=
+  match op with
   | .readFifo _ => do
       let r ← reads[0]?
       pure (.ok (fmtFifo r))
   | .flushFifo => pure (.ok "")
-  | .getStepCount => do
-      let r ← reads[0]?
-      pure (.ok (fmtInts [T.u24le (← r[0]?) (← r[1]?) (← r[2]?)]))
   | .clearStepCount => pure (.ok "")
-  | .getStepActivity => one (fun b => [T.decodeActivity b])
-  | .getRawTemp => one (fun b => [T.i8of b])
-  | .getTempCelsius => one (fun b => [T.i8of b + 46])      -- reported as 2·t (exact)
   | .config _ => pure (.ok "")
-  | .selfTest => do
-      let (px, py, pz) ← T.fromBytesUnscaled (← reads[0]?)
-      let (nx, ny, nz) ← T.fromBytesUnscaled (← reads[1]?)
-      if px - nx > 1500 ∧ py - ny > 1200 ∧ pz - nz > 250 then pure (.ok "")
-      else pure (.error .selfTest)
+  | .selfTest => selfTestVerdict reads
   | .softReset => pure (.ok "")
+  | op => (op.ints sh reads).map (fun l => .ok (fmtInts l))
 
 def Ctor.finish (c : Ctor) (reads : List (List Byte)) : Option (Except Err String) := do
   let r ← match c with
@@ -263,89 +272,93 @@ structure JEntry where
   ok : Bool
   deriving DecidableEq, Repr
 
+/-- state threaded through one API call -/
 structure World where
   chip : Chip
   shadow : Regs
   /-- index of the next fallible raw operation within the current call -/
   idx : Nat := 0
-  journal : List JEntry := []      -- most recent last
 
 def applyEff (sh : Regs) (a : Nat) (v : Byte) : Eff → Regs
   | .none => sh
   | .commit => sh.set a v
   | .reset => shadowDefault
 
-/-- perform one fallible raw operation: journal it, bump the index, apply it if acknowledged -/
-def World.raw (w : World) (fails : Nat → Bool) (r : Raw) : World × Option (List Byte) :=
+/-- perform one fallible raw operation: journal entry, bumped index, chip effect if
+    acknowledged, bytes returned -/
+def World.raw (w : World) (fails : Nat → Bool) (r : Raw) : JEntry × World × Option (List Byte) :=
   if fails w.idx then
-    ({ w with idx := w.idx + 1, journal := w.journal ++ [⟨r, false⟩] }, none)
+    (⟨r, false⟩, { w with idx := w.idx + 1 }, none)
   else
-    let (c, out) := w.chip.raw r
-    ({ w with chip := c, idx := w.idx + 1, journal := w.journal ++ [⟨r, true⟩] }, some out)
+    (⟨r, true⟩, { w with chip := (w.chip.raw r).1, idx := w.idx + 1 }, some (w.chip.raw r).2)
 
-/-- `write_register` -/
+/-- `write_register`: journal segment, new state, error -/
 def writeRegister (t : Transport) (fails : Nat → Bool) (w : World) (a : Nat) (v : Byte) :
-    World × Option Err :=
+    List JEntry × World × Option Err :=
   match t with
   | .i2c dev =>
-    let i := w.idx
-    match w.raw fails (.i2cWrite dev [BitVec.ofNat 8 a, v]) with
-    | (w, none) => (w, some (.io i))
-    | (w, some _) => (w, none)
+    let (e, w', r) := w.raw fails (.i2cWrite dev [BitVec.ofNat 8 a, v])
+    ([e], w', match r with | none => some (.io w.idx) | some _ => none)
   | .spi =>
-    let i := w.idx
-    match w.raw fails .csLow with
-    | (w, none) => (w, some (.pin i))
-    | (w, some _) =>
-      let (w, r1) := w.raw fails (.spiWrite [BitVec.ofNat 8 a, v])
-      let (w, r2) := w.raw fails .csHigh
-      match r1, r2 with
-      | none, _ => (w, some (.io (i + 1)))
-      | some _, none => (w, some (.pin (i + 2)))
-      | some _, some _ => (w, none)
+    let (e0, w0, r0) := w.raw fails .csLow
+    match r0 with
+    | none => ([e0], w0, some (.pin w.idx))
+    | some _ =>
+      let (e1, w1, r1) := w0.raw fails (.spiWrite [BitVec.ofNat 8 a, v])
+      let (e2, w2, r2) := w1.raw fails .csHigh
+      ([e0, e1, e2], w2,
+        match r1, r2 with
+        | none, _ => some (.io (w.idx + 1))
+        | some _, none => some (.pin (w.idx + 2))
+        | some _, some _ => none)
 
 /-- `read_register` into a buffer of n bytes (the buffer is zero-filled by every caller) -/
 def readRegister (t : Transport) (fails : Nat → Bool) (w : World) (a n : Nat) :
-    World × Except Err (List Byte) :=
+    List JEntry × World × Except Err (List Byte) :=
   match t with
   | .i2c dev =>
-    let i := w.idx
-    match w.raw fails (.i2cWriteRead dev [BitVec.ofNat 8 a] n) with
-    | (w, none) => (w, .error (.io i))
-    | (w, some d) => (w, .ok d)
+    let (e, w', r) := w.raw fails (.i2cWriteRead dev [BitVec.ofNat 8 a] n)
+    ([e], w', match r with | none => .error (.io w.idx) | some d => .ok d)
   | .spi =>
-    let i := w.idx
-    match w.raw fails .csLow with
-    | (w, none) => (w, .error (.pin i))
-    | (w, some _) =>
-      match w.raw fails (.spiTransfer [BitVec.ofNat 8 a ||| 0x80#8, 0#8]) with
-      | (w, none) =>
+    let (e0, w0, r0) := w.raw fails .csLow
+    match r0 with
+    | none => ([e0], w0, .error (.pin w.idx))
+    | some _ =>
+      let (e1, w1, r1) := w0.raw fails (.spiTransfer [BitVec.ofNat 8 a ||| 0x80#8, 0#8])
+      match r1 with
+      | none =>
         -- first transfer failed: release chip-select, report the transfer error
-        let (w, _) := w.raw fails .csHigh
-        (w, .error (.io (i + 1)))
-      | (w, some _) =>
-        let (w, r2) := w.raw fails (.spiTransfer (List.replicate n 0#8))
-        let j := w.idx
-        let (w, r3) := w.raw fails .csHigh
-        match r2, r3 with
-        | none, _ => (w, .error (.io (i + 2)))
-        | some _, none => (w, .error (.pin j))
-        | some d, some _ => (w, .ok d)
+        let (e2, w2, _) := w1.raw fails .csHigh
+        ([e0, e1, e2], w2, .error (.io (w.idx + 1)))
+      | some _ =>
+        let (e2, w2, r2) := w1.raw fails (.spiTransfer (List.replicate n 0#8))
+        let (e3, w3, r3) := w2.raw fails .csHigh
+        ([e0, e1, e2, e3], w3,
+          match r2, r3 with
+          | none, _ => .error (.io (w.idx + 2))
+          | some _, none => .error (.pin (w.idx + 3))
+          | some d, some _ => .ok d)
 
-/-- run a list of actions; stops at the first failure.  Returns the bytes of every read. -/
+/-- run a list of actions; stops at the first failure.  Returns the journal, the final
+    state and the bytes of every read. -/
 def exec (t : Transport) (fails : Nat → Bool) : World → List Act → List (List Byte) →
-    World × Except Err (List (List Byte))
-  | w, [], reads => (w, .ok reads)
+    List JEntry × World × Except Err (List (List Byte))
+  | w, [], reads => ([], w, .ok reads)
   | w, .wr a v e :: rest, reads =>
     match writeRegister t fails w a v with
-    | (w, some err) => (w, .error err)
-    | (w, none) => exec t fails { w with shadow := applyEff w.shadow a v e } rest reads
+    | (j, w', some err) => (j, w', .error err)
+    | (j, w', none) =>
+      let (j2, w'', r) := exec t fails { w' with shadow := applyEff w'.shadow a v e } rest reads
+      (j ++ j2, w'', r)
   | w, .rd a n :: rest, reads =>
     match readRegister t fails w a n with
-    | (w, .error err) => (w, .error err)
-    | (w, .ok d) => exec t fails w rest (reads ++ [d])
+    | (j, w', .error err) => (j, w', .error err)
+    | (j, w', .ok d) =>
+      let (j2, w'', r) := exec t fails w' rest (reads ++ [d])
+      (j ++ j2, w'', r)
   | w, .delay ms :: rest, reads =>
-    exec t fails { w with journal := w.journal ++ [⟨.delay ms, true⟩] } rest reads
+    let (j2, w'', r) := exec t fails w rest reads
+    (⟨.delay ms, true⟩ :: j2, w'', r)
 
 /-- outcome of one API call -/
 inductive Outcome
@@ -358,35 +371,32 @@ def Outcome.isOk : Outcome → Bool
   | .ok _ => true
   | _ => false
 
-/-- one API call on an existing driver; the journal and raw index start afresh -/
-def runOp (t : Transport) (fails : Nat → Bool) (w : World) (op : Op) : World × Outcome :=
-  let w := { w with idx := 0, journal := [] }
+def finishOutcome : Option (Except Err String) → Outcome
+  | none => .panic
+  | some (.ok v) => .ok v
+  | some (.error e) => .err e
+
+/-- one API call on an existing driver (raw index restarts at 0): journal, new state, outcome -/
+def runOp (t : Transport) (fails : Nat → Bool) (w : World) (op : Op) : List JEntry × World × Outcome :=
+  let w := { w with idx := 0 }
   let p := op.plan w.shadow
   match p.guard with
-  | some e => (w, .err e)
+  | some e => ([], w, .err e)
   | none =>
     match exec t fails w p.acts [] with
-    | (w, .error e) => (w, .err e)
-    | (w, .ok reads) =>
-      match op.finish w.shadow reads with
-      | none => (w, .panic)
-      | some (.ok v) => (w, .ok v)
-      | some (.error e) => (w, .err e)
+    | (j, w', .error e) => (j, w', .err e)
+    | (j, w', .ok reads) => (j, w', finishOutcome (op.finish w'.shadow reads))
 
 def Ctor.transport (dev : Nat) : Ctor → Transport
   | .newI2c => .i2c dev
   | _ => .spi
 
-/-- a constructor call on a fresh chip; `none` driver when it fails -/
-def runCtor (dev : Nat) (fails : Nat → Bool) (chip : Chip) (c : Ctor) : World × Outcome :=
+/-- a constructor call on a fresh chip -/
+def runCtor (dev : Nat) (fails : Nat → Bool) (chip : Chip) (c : Ctor) : List JEntry × World × Outcome :=
   let w : World := { chip := chip, shadow := shadowDefault }
   match exec (c.transport dev) fails w c.acts [] with
-  | (w, .error e) => (w, .err e)
-  | (w, .ok reads) =>
-    match c.finish reads with
-    | none => (w, .panic)
-    | some (.ok v) => (w, .ok v)
-    | some (.error e) => (w, .err e)
+  | (j, w', .error e) => (j, w', .err e)
+  | (j, w', .ok reads) => (j, w', finishOutcome (c.finish reads))
 
 /-- a chip after power-on holding the given id / data registers -/
 def Chip.powerOn (low : Nat → Byte) (pos neg fifo : List Byte) : Chip :=
